@@ -89,6 +89,23 @@ pub struct TcpStream {
     side: usize,
     read_timeout: Cell<Option<Duration>>,
     faulty: bool,
+    /// shared by all handles of this end (`try_clone`); the end closes when the last one goes
+    token: Rc<EndToken>,
+}
+struct EndToken {
+    conn: Rc<Conn>,
+    side: usize,
+}
+impl Drop for EndToken {
+    fn drop(&mut self) {
+        if let Ok(mut pipes) = self.conn.pipes.try_borrow_mut() {
+            pipes[1 - self.side].wr_closed = true;
+            pipes[self.side].rd_closed = true;
+        }
+        if !std::thread::panicking() {
+            self.conn.wq.wake_all();
+        }
+    }
 }
 // Safety: simulated threads are coroutines on one OS thread.
 unsafe impl Send for TcpStream {}
@@ -103,10 +120,24 @@ impl TcpStream {
             wq: WaitQ::default(),
             id,
         });
-        (
-            TcpStream { conn: c.clone(), side: 0, read_timeout: Cell::new(None), faulty: false },
-            TcpStream { conn: c, side: 1, read_timeout: Cell::new(None), faulty: true },
-        )
+        let end = |side: usize, faulty: bool| TcpStream {
+            conn: c.clone(),
+            side,
+            read_timeout: Cell::new(None),
+            faulty,
+            token: Rc::new(EndToken { conn: c.clone(), side }),
+        };
+        (end(0, false), end(1, true))
+    }
+    /// Another handle on the same end of the connection (like std's `try_clone`).
+    pub fn try_clone(&self) -> io::Result<TcpStream> {
+        Ok(TcpStream {
+            conn: self.conn.clone(),
+            side: self.side,
+            read_timeout: Cell::new(self.read_timeout.get()),
+            faulty: self.faulty,
+            token: self.token.clone(),
+        })
     }
     pub fn conn_id(&self) -> u64 {
         self.conn.id
@@ -239,18 +270,6 @@ impl Write for TcpStream {
     }
 }
 
-impl Drop for TcpStream {
-    fn drop(&mut self) {
-        if let Ok(mut pipes) = self.conn.pipes.try_borrow_mut() {
-            pipes[1 - self.side].wr_closed = true;
-            pipes[self.side].rd_closed = true;
-        }
-        if !std::thread::panicking() {
-            self.conn.wq.wake_all();
-        }
-    }
-}
-
 struct ListenerInner {
     q: RefCell<VecDeque<(TcpStream, SocketAddr)>>,
     wq: WaitQ,
@@ -307,7 +326,7 @@ pub fn connect(server: SocketAddr, client: SocketAddr, cap_to_client: usize) -> 
     let (l, id) = NET.with(|n| {
         let mut n = n.borrow_mut();
         n.next_conn += 1;
-        (n.listeners.get(&server).cloned(), n.next_conn)
+        (n.listeners.get(&server).or_else(|| n.listeners.get(&wildcard_of(server))).cloned(), n.next_conn)
     });
     let l = l.ok_or_else(|| io::Error::from(io::ErrorKind::ConnectionRefused))?;
     let (c, s) = TcpStream::pair(cap_to_client.max(1), usize::MAX, id);
@@ -487,8 +506,19 @@ fn transmit(from: SocketAddr, to: SocketAddr, data: &[u8]) -> u64 {
     id
 }
 
+/// The unspecified ("any") address of the same family and port.
+pub(crate) fn wildcard_of(a: SocketAddr) -> SocketAddr {
+    match a {
+        SocketAddr::V4(_) => SocketAddr::new(IpAddr::V4(std::net::Ipv4Addr::UNSPECIFIED), a.port()),
+        SocketAddr::V6(_) => SocketAddr::new(IpAddr::V6(std::net::Ipv6Addr::UNSPECIFIED), a.port()),
+    }
+}
+
 fn enqueue(d: Dgram) {
-    let sock = NET.with(|n| n.borrow().udp.get(&d.dst).cloned());
+    let sock = NET.with(|n| {
+        let n = n.borrow();
+        n.udp.get(&d.dst).or_else(|| n.udp.get(&wildcard_of(d.dst))).cloned()
+    });
     let Some(sock) = sock else { return };
     NET.with(|n| n.borrow_mut().log.delivered.push(d.clone()));
     let mut q = sock.0.q.borrow_mut();
